@@ -95,6 +95,7 @@ type world struct {
 	failNext  map[int]bool
 	blockNext map[int]bool
 	unblock   map[int]chan struct{}
+	brk       map[int]chan struct{}
 	ctxs      map[int]context.Context
 	cancels   map[int]context.CancelFunc
 	fcStart   bool
@@ -112,7 +113,7 @@ func (w *world) isDone(i int) bool {
 }
 
 func newWorld(r *rec, s *sched.S, maxRetries, maxReq int) *world {
-	w := &world{r: r, s: s, failNext: map[int]bool{}, blockNext: map[int]bool{}, unblock: map[int]chan struct{}{}, ctxs: map[int]context.Context{}, cancels: map[int]context.CancelFunc{}, doDone: map[int]bool{}, maxReq: maxReq}
+	w := &world{r: r, s: s, failNext: map[int]bool{}, blockNext: map[int]bool{}, unblock: map[int]chan struct{}{}, brk: map[int]chan struct{}{}, ctxs: map[int]context.Context{}, cancels: map[int]context.CancelFunc{}, doDone: map[int]bool{}, maxReq: maxReq}
 	w.clk = neo.NewTime(time.Date(2026, 1, 1, 0, 0, 0, 0, time.UTC))
 	w.e = rpc.New(func(ctx context.Context, id int64, seqNo int32, in bin.Encoder) error {
 		i := int(id-7000) / 4
@@ -121,10 +122,12 @@ func newWorld(r *rec, s *sched.S, maxRetries, maxReq int) *world {
 		w.failNext[i] = false
 		block := w.blockNext[i]
 		w.blockNext[i] = false
-		var ub chan struct{}
+		var ub, brk chan struct{}
 		if block {
 			ub = make(chan struct{})
+			brk = make(chan struct{})
 			w.unblock[i] = ub
+			w.brk[i] = brk
 		}
 		w.mu.Unlock()
 		if fail {
@@ -139,6 +142,10 @@ func newWorld(r *rec, s *sched.S, maxRetries, maxReq int) *world {
 			// the write is stuck inside the transport until released or until its context ends
 			select {
 			case <-ub:
+			case <-brk:
+				// the connection broke under the stuck write
+				r.emit(tr.M{"ev": "SendBroke", "i": i})
+				return errSend
 			case <-ctx.Done():
 				r.emit(tr.M{"ev": "SendAbort", "i": i})
 				return ctx.Err()
@@ -285,6 +292,13 @@ func replay(r *rec, trace int, c tr.M, maxRetries int) {
 			w.mu.Lock()
 			if ub := w.unblock[i]; ub != nil {
 				close(ub)
+				w.unblock[i] = nil
+			}
+			w.mu.Unlock()
+		case "SendBreak":
+			w.mu.Lock()
+			if ub := w.unblock[i]; ub != nil {
+				close(w.brk[i])
 				w.unblock[i] = nil
 			}
 			w.mu.Unlock()
